@@ -321,6 +321,7 @@ func init() {
 		NonTrivial: []string{"fanout-notify-to-subscriber"},
 		Build: func(w *World) {
 			pr := BuildProto(w, ProtoOpt{Peers: 2 + w.T.Choose(2, "peers"), MinServers: 2})
+			pr.L.QuiesceOwnTraffic = true
 			d := &c08Data{pr: pr, rs: &regScript{w: w, pr: pr, kind: "sub"}}
 			d.ev = w.CollectEvents()
 			w.EnableFaults("net.dup")
